@@ -10,6 +10,8 @@ c14_trap_<name>        for each of the four Trio traps the model treats as hide+
                        <name> is, as a string constant of its own, an element of the tuple that glue_trio's
                        `for trap in (...)` loop iterates, and the loop body's single customize() call is
                        customize(getattr(lowlevel, trap), hide=True, prune=True)
+c14_guard_reset_on_frame  in extract_iter, the body of `if isinstance(current, Frame):` (the branch that queues a Frame
+                       for elaboration) assigns `loops_since_progress = 0`
 c14_wait_name          the to_thread glue tests `next_inner.funcname == "wait_task_rescheduled"`
 """
 import ast
@@ -33,7 +35,8 @@ def _is_true(node):
 
 
 def compute():
-    facts = {"c14_children_for_task": False, "c14_stub_rule": False, "c14_wait_name": False}
+    facts = {"c14_children_for_task": False, "c14_stub_rule": False, "c14_wait_name": False,
+             "c14_guard_reset_on_frame": False}
     for name in TRAP_NAMES:
         facts["c14_trap_" + name] = False
     gl = _parse("stackscope/_glue.py")
@@ -89,6 +92,23 @@ def compute():
                         and x.comparators[0].value == "wait_task_rescheduled"):
                     facts["c14_wait_name"] = True
     ex = _parse("stackscope/_extract.py")
+    ei = _find_def(ex, "extract_iter")
+    if ei is not None:
+        hits = []
+        for x in ast.walk(ei):
+            if (isinstance(x, ast.If) and isinstance(x.test, ast.Call) and isinstance(x.test.func, ast.Name)
+                    and x.test.func.id == "isinstance" and len(x.test.args) == 2
+                    and isinstance(x.test.args[0], ast.Name) and x.test.args[0].id == "current"
+                    and isinstance(x.test.args[1], ast.Name) and x.test.args[1].id == "Frame"):
+                resets = any(isinstance(st, ast.Assign) and len(st.targets) == 1
+                             and isinstance(st.targets[0], ast.Name) and st.targets[0].id == "loops_since_progress"
+                             and isinstance(st.value, ast.Constant) and st.value.value == 0
+                             for st in x.body)
+                appends = any(isinstance(c, ast.Call) and isinstance(c.func, ast.Attribute) and c.func.attr == "append"
+                              and isinstance(c.func.value, ast.Name) and c.func.value.id == "to_elaborate"
+                              for st in x.body for c in ast.walk(st))
+                hits.append(resets and appends)
+        facts["c14_guard_reset_on_frame"] = hits == [True]
     ec = _find_def(ex, "extract_child")
     if ec is not None:
         ifs = [s for s in ec.body if isinstance(s, ast.If)]
